@@ -199,3 +199,49 @@ def dup_header(n: int) -> Tuple[Optional[str], Optional[str], Optional[str], Opt
     p.fast_forward()
     v = p.variables
     return (v.get("a"), v.get("b"), v.get("c"), v.get("d"))
+
+
+# ------------------------------------------------------------------ O7 the real reader, characters that are line boundaries elsewhere
+# characters str.splitlines() treats as line boundaries but a csv file does not (only CR/LF end a record), plus controls
+ODD = ["\x0b", "\x0c", "\x1c", "\x1d", "\x1e", "\x85", "\u2028", "\u2029", "\t", " ", "a", "\u00e9", "b"]
+
+
+@ob(
+    "C06",
+    "O7-real-reader-odd-characters",
+    pre=["0 <= i < len(ODD) and 0 <= j < len(ODD)"],
+    post="_ == ''",
+    bound="the real CsvDataReader and the real csv module over a real 3-record file: one cell (record pos, column col; per shard) holds "
+    "'x' + c1 + c2 + 'y' with c1, c2 chosen by symbolic indexes over VT, FF, FS, GS, RS, NEL, LS, PS, tab, blank, letters - unquoted on "
+    "disk as csv.writer leaves them: the reader returns the same records, cell for cell (no record is cut in two); the line monitor of a "
+    "CsvPath run over the file counts 3 lines",
+    outside="CR and LF inside unquoted cells (they do end a record); other characters",
+    encodes=["csvpath/util/file_readers.py:CsvDataReader.next", "csvpath/csvpath.py:CsvPath.collect/get_total_lines_and_headers"],
+    tiers={"quick": {"timeout": 900, "shards": product(pos=[0, 1, 2], col=[0, 1])}},
+)
+def real_reader_odd_characters(i: int, j: int, pos: int, col: int) -> str:
+    import csv
+    import os
+    import csvpath.util.file_readers as fr
+    from vp import kit
+
+    cell = "x" + ODD[i] + ODD[j] + "y"
+    recs = [["h0", "h1"], ["a", "b"], ["c", "d"]]
+    recs[pos][col] = cell
+    with NoTracing():
+        path = os.path.join(kit.workdir(), "odd.csv")
+        with open(path, "w", newline="", encoding="utf-8") as f:
+            csv.writer(f).writerows(recs)
+        got = [list(r) for r in fr.CsvDataReader(path).next()]
+        problems = []
+        if got != recs:
+            problems.append(f"CsvDataReader returned {got!r} for {recs!r}")
+        p = CsvPath(print_default=False)
+        p.logger.disabled = True
+        p.parse(f"${path}[*][ yes() ]")
+        lines = [list(x) for x in p.collect()]
+        if lines != recs:
+            problems.append(f"collect() returned {lines!r}")
+        if p.line_monitor.physical_end_line_number != 2:
+            problems.append(f"end line number {p.line_monitor.physical_end_line_number}")
+    return "; ".join(problems)
